@@ -283,6 +283,32 @@ def summary_obligations(repo, chk, corrected, oid, report_kinds):
     return I, cs
 
 
+def labelling_obligations(repo, chk, oid):
+    """For the relabelling property: the kernel summary (both the plain and the corrected path) must be a sum over VALUE domains in which codes are
+    only compared with codes of the same vector and tables are read at the position of their own value.  Reported: the defect kinds that make the
+    result depend on the numeric codes or on their order (a table read at another vector's / a stale position, codes compared with positions,
+    counts stored at another slot, an incomplete value domain).  A kernel the interpreter cannot read is an abstention, not a silent pass -
+    the use-restriction rules alone do not see a mis-aligned table."""
+    m = repo.mod(MI)
+    kinds = {'badindex', 'badcount', 'badstore', 'badrange'}
+    n_ok = 0
+    for corrected in (False, True):
+        try:
+            I, nratio, cs = kernel.summarise(m, corrected)
+        except kernel.Unknown as u:
+            node = getattr(u, 'node', None)
+            I = getattr(u, 'interp', None)
+            reported = _report_defects(chk, m, I, oid, kinds) if I is not None else 0
+            if not reported:
+                chk.unsure(oid, 'R9', f'{m.relpath}:{getattr(node, "lineno", 0)} <kernel>', ast.unparse(node)[:100] if node is not None else 'kernel',
+                           f'the kernel applies an operation outside the kind vocabulary ({u}): that values, counts and joint counts stay aligned by value (not by code or position) is not decided')
+            return
+        if _report_defects(chk, m, I, oid, kinds):
+            return
+        n_ok += 1
+    chk.ok(oid, 'R9', m.relpath, 'kernel summary, plain and corrected path', 'every table of the kernel is read at the position of its own value and codes are compared with codes of the same vector only')
+
+
 def _report_defects(chk, m, I, oid, report_kinds):
     seen = set()
     for kind, node, text in I.defects:
